@@ -60,7 +60,7 @@ def orderings(fabric, tier_all=False):
     return [tuple(zeros) + p for p in itertools.permutations(rest)]
 
 
-def extract(ctx, fabric, regime, perm, N=2, inputs=None):
+def extract(ctx, fabric, regime, perm, N=2, inputs=None, setup=None):
     """Interpret pydrex.core.derivatives on symbolic inputs. Returns (interp, inputs, (dA, df))."""
     inp = inputs or Inputs(N)
 
@@ -98,6 +98,8 @@ def extract(ctx, fabric, regime, perm, N=2, inputs=None):
         return tuple(order)
 
     I = Interp(ctx.program, perm_chooser=chooser)
+    if setup is not None:
+        setup(I)
     f = public(ctx, I, "pydrex.core.derivatives")
     ph = enum(I, "pydrex.core.MineralPhase", FABRIC_PHASE[fabric])
     fb = enum(I, "pydrex.core.MineralFabric", fabric)
